@@ -341,12 +341,80 @@ def rename_private_functions(tree):
     return len(names)
 
 
+def continue_to_nested(tree):
+    """loop body: ``if c: continue`` + rest  ->  ``if not c: rest``"""
+    n = 0
+    changed = True
+    while changed:
+        changed = False
+        for node in ast.walk(tree):
+            if not isinstance(node, (ast.For, ast.While)):
+                continue
+            blk = node.body
+            for i, st in enumerate(blk):
+                if isinstance(st, ast.If) and not st.orelse and len(
+                        st.body) == 1 and isinstance(
+                            st.body[0], ast.Continue) and i + 1 < len(blk):
+                    t = st.test
+                    if isinstance(t, ast.UnaryOp) and isinstance(
+                            t.op, ast.Not):
+                        t = t.operand
+                    else:
+                        t = ast.UnaryOp(op=ast.Not(), operand=t)
+                    st.test = t
+                    st.body = blk[i + 1:]
+                    del blk[i + 1:]
+                    n += 1
+                    changed = True
+                    break
+            if changed:
+                break
+    ast.fix_missing_locations(tree)
+    return n
+
+
+def nested_to_continue(tree):
+    """loop body ending in ``if c: X`` (no else)  ->  ``if not c: continue``
+    + X"""
+    n = 0
+    changed = True
+    while changed:
+        changed = False
+        for node in ast.walk(tree):
+            if not isinstance(node, (ast.For, ast.While)):
+                continue
+            blk = node.body
+            st = blk[-1]
+            if isinstance(st, ast.If) and not st.orelse and not (
+                    len(st.body) == 1 and isinstance(
+                        st.body[0], (ast.Continue, ast.Break, ast.Return,
+                                     ast.Raise))) and not getattr(
+                                         st, '_done', False):
+                t = st.test
+                if isinstance(t, ast.UnaryOp) and isinstance(t.op, ast.Not):
+                    t = t.operand
+                else:
+                    t = ast.UnaryOp(op=ast.Not(), operand=t)
+                rest = st.body
+                st.test = t
+                st.body = [ast.Continue()]
+                st._done = True
+                blk.extend(rest)
+                n += 1
+                changed = True
+                break
+    ast.fix_missing_locations(tree)
+    return n
+
+
 MODE = None
 EXTERNAL_REFS = set()
 MODES = {'--merge-ifs': merge_ifs, '--split-ifs': split_ifs,
          '--flatten-else': flatten_else, '--absorb-else': absorb_else,
          '--alias-decorators': alias_decorators,
-         '--rename-functions': rename_private_functions}
+         '--rename-functions': rename_private_functions,
+         '--continue-to-nested': continue_to_nested,
+         '--nested-to-continue': nested_to_continue}
 
 
 def variant(relpath, repo='/repo'):
